@@ -318,6 +318,12 @@ class _Run:
                 return r.value
             if isinstance(r, (ast.Tuple, ast.List)) and all(isinstance(z, ast.Constant) for z in r.elts):
                 return tuple(z.value for z in r.elts)
+            if isinstance(r, ast.expr) and not isinstance(r, (ast.Name, ast.Lambda)):
+                # a module-level constant bound to an expression (e.g. a parsed version): its value, or an opaque one
+                try:
+                    return self.ev(r, {})
+                except (Unknown, TypeErr):
+                    return Opaque(x.id)
             if x.id in ("torch", "version"):
                 return Opaque(x.id)
             if x.id in ("qint8", "qint4", "qint2", "qfloat8", "qfloat8_e4m3fn", "qfloat8_e5m2"):
